@@ -54,6 +54,21 @@ pub mod mpsc {
             Poll::Ready(Some(t))
         }
     }
+    /// Bounded channel (the server's response buffer): same array FIFO.  `send` never has to wait
+    /// — a full buffer (the handler parked in `send`) is outside what the harnesses using it
+    /// claim; exceeding the model bound is an assertion failure, never a silent drop.
+    pub struct Sender<T>(UnboundedSender<T>);
+    pub struct Receiver<T>(UnboundedReceiver<T>);
+    impl<T> Clone for Sender<T> { fn clone(&self) -> Self { Sender(self.0.clone()) } }
+    impl<T> std::fmt::Debug for Sender<T> { fn fmt(&self, f: &mut std::fmt::Formatter<'_>) -> std::fmt::Result { f.write_str("Sender") } }
+    impl<T> std::fmt::Debug for Receiver<T> { fn fmt(&self, f: &mut std::fmt::Formatter<'_>) -> std::fmt::Result { f.write_str("Receiver") } }
+    pub fn channel<T>(_buffer: usize) -> (Sender<T>, Receiver<T>) { let (a, b) = unbounded_channel(); (Sender(a), Receiver(b)) }
+    impl<T> Sender<T> {
+        pub async fn send(&self, t: T) -> Result<(), error::SendError<T>> { self.0.send(t) }
+    }
+    impl<T> Receiver<T> {
+        pub fn poll_recv(&mut self, cx: &mut Context<'_>) -> Poll<Option<T>> { self.0.poll_recv(cx) }
+    }
 }
 
 pub struct FnvHashMap<K, V> { used: [bool; CAP], keys: [MaybeUninit<K>; CAP], vals: [MaybeUninit<V>; CAP] }
@@ -187,6 +202,15 @@ pub mod delay_queue {
         pub fn is_empty(&self) -> bool { self.len() == 0 }
         pub fn len(&self) -> usize { let mut n = 0; let mut i = 0; while i < CAP { if self.used[i] { n += 1; } i += 1; } n }
         /// (model only) the deadline an entry is armed with
+/// Harness-side observation that does not depend on how the table keys its map: the due time
+        /// of the entry carrying `v` (asserts that there is one).
+        pub fn due_of_value(&self, v: &T) -> Instant where T: PartialEq {
+            let mut i = 0;
+            let mut at = CAP;
+            while i < CAP { if self.used[i] && unsafe { &*self.vals[i].as_ptr() } == v { at = i; } i += 1; }
+            assert!(at < CAP, "no timer armed for this request");
+            unsafe { std::ptr::read(self.due[at].as_ptr()) }
+        }
         pub fn deadline_of(&self, key: &Key) -> Instant { unsafe { std::ptr::read(self.due[key.slot].as_ptr()) } }
     }
 }
